@@ -143,7 +143,7 @@ def case_stream(rng, tier):
     i = 0
     kinds = ["missing", "open_err", "read_err", "isdir", "malformed", "malformed", "dsl", "dsl", "dsl_end", "out_schema", "out_x",
              "stdout_write", "stdout_write", "gz_trunc", "join_left", "first_record_early_exit", "target_open", "target_write",
-             "target_write", "target_close", "split_write", "redirect_write", "pipe_early_exit", "not_fired", "target_schema", "evicted_target_write", "two_missing"]
+             "target_write", "target_close", "split_write", "redirect_write", "pipe_early_exit", "not_fired", "target_schema", "evicted_target_write", "two_missing", "multi_redirect_close"]
     while True:
         i += 1
         r = rng.fork("f", i)
@@ -153,7 +153,7 @@ def case_stream(rng, tier):
             yield c
 
 
-NAMED_ONLY = ("evicted_target_write", "dsl", "dsl_end", "out_schema", "out_x", "join_left", "split_write", "redirect_write", "pipe_early_exit", "target_schema")
+NAMED_ONLY = ("multi_redirect_close", "evicted_target_write", "dsl", "dsl_end", "out_schema", "out_x", "join_left", "split_write", "redirect_write", "pipe_early_exit", "target_schema")
 
 
 def build_case(r, kind, tier):
@@ -342,6 +342,24 @@ def build_case(r, kind, tier):
         for k in range(nfiles):
             if k != j:
                 files[names[k]] = fmt_text(fmt, [])
+    elif kind == "multi_redirect_close":
+        # several redirected statements in one put; little data, so the write error on one target surfaces only
+        # when the targets are flushed and closed at end of stream - whichever statement it belongs to
+        stmts = ["tee > \"mr_tee.out\", $*", "print > \"mr_print.out\", $i", "emit > \"mr_emit.out\", mapsum($*, {})",
+                 "dump > \"mr_dump.out\", {\"i\": $i}", "printn > \"mr_printn.out\", $a"]
+        r.shuffle(stmts)
+        k = r.randint(2, 4)
+        chosen = stmts[:k]
+        victim = r.below(k)
+        tpath = chosen[victim].split("\"")[1]
+        verbs = [["put", "-q", "; ".join(chosen)]]
+        if r.chance(0.3):
+            verbs = [["put", "-q", "; ".join(chosen[:1])], ["put", "-q", "; ".join(chosen[1:])]] if victim >= 1 else verbs
+        oflags = r.choice([[], ["--ojson"]])
+        small = rect_records(r, r.choice([1, 3, 8]))
+        for kk in range(nfiles):
+            files[names[kk]] = fmt_text(fmt, small if kk == j else [])
+        faults = [{"kind": "write_err", "path": tpath, "at": 0, "errno": r.choice(["ENOSPC", "EIO"]), "torn": False}]
     elif kind == "two_missing":
         # two unopenable inputs: the second error is posted while the first may still be pending
         names = ["nope1." + fmt] + names + ["nope2." + fmt]
